@@ -61,6 +61,7 @@ function runCase(c) {
   const sandbox = {};
   const ctx = vm.createContext(sandbox);
   sandbox.log = function () {
+    if (log.length >= (c.max_log || 500)) { const e = new Error('log budget'); e.code = 'ERR_SCRIPT_EXECUTION_TIMEOUT'; throw e; }
     const entry = [];
     for (let i = 0; i < arguments.length; i++) entry.push(enc(arguments[i], 0));
     log.push(entry);
@@ -68,9 +69,9 @@ function runCase(c) {
   sandbox.console = { log: function () {} };
   const out = { log: log, ret: null, err: null };
   try {
-    if (c.pre) vm.runInContext(c.pre, ctx, { timeout: c.timeout || 2000 });
+    if (c.pre) vm.runInContext(c.pre, ctx, { timeout: c.timeout || 700 });
     const src = (c.sloppy ? '' : '"use strict";\n') + c.src;
-    const v = vm.runInContext(src, ctx, { timeout: c.timeout || 2000 });
+    const v = vm.runInContext(src, ctx, { timeout: c.timeout || 700 });
     out.ret = enc(v, 0);
   } catch (e) {
     let name = null, msg = null, thrown = null;
